@@ -141,7 +141,23 @@ class CBatch:
         shutil.copy(CORE, os.path.join(workdir, "harness_core.c"))
         self.exes: Dict[str, str] = {}
 
+    def build_be_emu(self) -> str:
+        """Standard-mode generated code + runtime built for a big-endian host as a shared
+        object + the sign-fix shim (DESIGN C06b).  The driver byte-reverses leaf storage."""
+        exe = os.path.join(self.dir, "h_be_emu")
+        inc = ["-I", self.dir, "-I", bind.CLIB_DIR]
+        so = os.path.join(self.dir, "libbpbe.so")
+        run_cc(["gcc", "-std=gnu11", "-w", "-O1", "-fPIC", "-shared", "-DBP_BIG_ENDIAN=1"] + inc +
+               [os.path.join(bind.CLIB_DIR, "bitproto.c"), "-o", so], self.dir, "be:lib")
+        srcs = [os.path.join(self.dir, g) for g in self.gen_c] + [os.path.join(self.dir, "harness.c")]
+        run_cc(["gcc", "-std=gnu11", "-w", "-O1", "-DRT_BE_SHIM", "-DBP_BIG_ENDIAN=1"] + inc + srcs +
+               ["-L", self.dir, "-lbpbe", "-ldl", "-Wl,-rpath," + self.dir, "-o", exe], self.dir, "be:harness")
+        self.exes["be-emu"] = exe
+        return exe
+
     def build(self, variant: str, extra_flags: Optional[List[str]] = None) -> str:
+        if variant == "be-emu":
+            return self.build_be_emu()
         cc, flags, unity = VARIANTS[variant]
         flags = list(flags) + list(extra_flags or [])
         exe = os.path.join(self.dir, "h_" + variant.replace("-", "_") + ("_x" if extra_flags else ""))
@@ -219,18 +235,18 @@ class Harness:
         self.rows = rows
         return rows
 
-    def image(self, r: int, leaves: List[ref.Leaf], vec: List[int], fill=0xA5) -> bytes:
+    def image(self, r: int, leaves: List[ref.Leaf], vec: List[int], fill=0xA5, order="little") -> bytes:
         row = self.rows[r]
         img = bytearray([fill]) * row["size"]
         for (off, sz), l, v in zip(row["leaves"], leaves, vec):
-            img[off:off + sz] = (int(v) & ((1 << (8 * sz)) - 1)).to_bytes(sz, "little")
+            img[off:off + sz] = (int(v) & ((1 << (8 * sz)) - 1)).to_bytes(sz, order)
         return bytes(img)
 
-    def unimage(self, r: int, leaves: List[ref.Leaf], img: bytes) -> List[int]:
+    def unimage(self, r: int, leaves: List[ref.Leaf], img: bytes, order="little") -> List[int]:
         row = self.rows[r]
         out = []
         for (off, sz), l in zip(row["leaves"], leaves):
-            v = int.from_bytes(img[off:off + sz], "little")
+            v = int.from_bytes(img[off:off + sz], order)
             if l.signed and v >> (8 * sz - 1):
                 v -= 1 << (8 * sz)
             out.append(v)
@@ -279,6 +295,27 @@ class Harness:
         for _ in wires:
             d = self._read(1 + row["size"])
             out.append((d[0], d[1:]))
+        return out
+
+    def decode_long(self, r: int, wires: List[bytes]) -> List[Tuple[int, bytes]]:
+        """Decode buffers longer than BYTES_LENGTH (all of one length): op 'X'."""
+        row = self.rows[r]
+        out = []
+        if not wires:
+            return out
+        wl = len(wires[0])
+        per = max(row["size"], wl) + 1
+        n = max(1, 16384 // per)
+        for i in range(0, len(wires), n):
+            ch = wires[i:i + n]
+            try:
+                self.p.stdin.write(b"X" + struct.pack("<III", r, len(ch), wl) + b"".join(ch))
+                self.p.stdin.flush()
+            except BrokenPipeError:
+                self._fail("decode_long: broken pipe")
+            for _ in ch:
+                d = self._read(1 + row["size"])
+                out.append((d[0], d[1:]))
         return out
 
     def json(self, r: int, image: bytes) -> Tuple[str, bool]:
